@@ -215,13 +215,20 @@ const sweepMaxLen = 420
 
 func sweepMasks() []int {
 	if vstat.Thorough() {
-		m := make([]int, 0, 255)
-		for i := 1; i <= 255; i++ {
+		m := []int{1, 2, 4, 8, 16, 32, 64, 128, 255}
+		for i := 3; i < 255; i += 5 {
 			m = append(m, i)
 		}
 		return m
 	}
 	return []int{0x01, 0x80, 0xff}
+}
+
+func sweepTargets() []int {
+	if vstat.Thorough() {
+		return []int{0, 1, 2, 3}
+	}
+	return sweepSteps
 }
 
 func enumerateBytes(yield func(Case) bool) {
@@ -232,7 +239,7 @@ func enumerateBytes(yield func(Case) bool) {
 	}
 	masks := sweepMasks()
 	k := 0
-	for _, si := range sweepSteps {
+	for _, si := range sweepTargets() {
 		for off := 0; off < sweepMaxLen; off += sweepChunk {
 			k++
 			if k%shards != shard {
